@@ -501,4 +501,359 @@ example : (View.arrDeleteElems pjOut (fun _ => true) vOut.iter 0 #[] 3).isOk = t
   rw [if_neg (by decide +kernel)] at this
   exact this
 
+/-! ## 4. `Object.ForEach` -/
+
+/-- the log of a list of callbacks `fn(name, tmp)`: six integers per call (length of the name, then the iterator) -/
+def encNIs (a : Array (Bytes × Iter)) : List Int := a.toList.flatMap encNI
+
+theorem encNIs_push (a : Array (Bytes × Iter)) (x : Bytes × Iter) : encNIs (a.push x) = encNIs a ++ encNI x := by
+  simp [encNIs]
+
+def ofeLoopBody : List Stmt := firstLoop goObject_ForEach.body
+
+def ofeTail : List Stmt := [
+  .cb "_" "fn" cbLogsTmp,
+  .assign "n" (.bin .add (.v "n") (.int 1)),
+  .ite (.bin .eq (.v "n") (.lenK (.v "onlyKeys"))) [
+    .ret [(.bool false /- nil -/)]] []]
+
+theorem ofeLoopBody_eq : ofeLoopBody = objHeadA ++ (objHeadB ++ (objFilter :: (objValue ++ ofeTail))) := rfl
+
+theorem ofeTail_run (e : Env) (tape : Array UInt64) (fuel : Nat) (tmp2 : Iter) (name : Bytes) (ks : List Bytes)
+    (cnt : Nat) (hI : iterAt e "tmp" = some tmp2) (hn : e.get "name" = some (.bytes name))
+    (hk : e.get "onlyKeys" = some (.keys ks)) (hc : e.get "n" = some (.int cnt)) :
+    exec goFuns fuel ofeTail ⟨e, tape⟩ =
+      if cnt + 1 = ks.length then
+        .ret ⟨(e.set "fn.log" (.ints (logOf e ++ encNI (name, tmp2)))).set "n" (.int ((cnt + 1 : Nat) : Int)), tape⟩
+          [.bool false]
+      else .normal ⟨(e.set "fn.log" (.ints (logOf e ++ encNI (name, tmp2)))).set "n" (.int ((cnt + 1 : Nat) : Int)),
+        tape⟩ := by
+  rw [ofeTail, exec, exec1_cb_tmp _ _ _ tmp2 name hI hn]
+  simp only []
+  by_cases h : cnt + 1 = ks.length
+  · have h' : ((cnt : Int) + 1 == (ks.length : Int)) = true := by simp; omega
+    rw [if_pos h]
+    simp [hc, hk, h']
+  · have h' : ((cnt : Int) + 1 == (ks.length : Int)) = false := by simp; omega
+    rw [if_neg h]
+    simp [hc, hk, h']
+
+/-- `Object.ForEach` / `Object.DeleteElems` return `nil` or an error -/
+def SimOFE (pj : PJ) (o : Out) (r : Res (Array (Bytes × Iter))) : Prop :=
+  match r with
+  | .ok its => ∃ s, o = .ret s [.bool false] ∧ s.tape = pj.tape ∧ logOf s.env = encNIs its
+  | .error _ => ∃ s, o = .ret s [.bool true] ∧ s.tape = pj.tape
+  | .panic => o = .panic
+  | .diverge => False
+
+/-- the loop of `Object.ForEach` IS `View.forEach` -/
+theorem objForEach_loop (pj : PJ) (hb : BufOK pj) (ks : List Bytes) : ∀ (n : Nat) (tmp : Iter) (cnt : Nat)
+    (acc : Array (Bytes × Iter)) (e : Env) (fuel mf : Nat),
+    tmp.lim - pos tmp < n → 0 ≤ tmp.addNext → n ≤ mf → n + tmp.lim + 6 ≤ fuel → tmp.lim ≤ pj.tape.size →
+    ItInv pj "tmp" tmp e → e.get "onlyKeys" = some (.keys ks) → e.get "n" = some (.int cnt) →
+    logOf e = encNIs acc →
+    match View.forEach pj ks tmp cnt acc mf with
+    | .ok its => ∃ e', exec1 goFuns fuel (.loop ofeLoopBody) ⟨e, pj.tape⟩ = .ret ⟨e', pj.tape⟩ [.bool false] ∧
+        logOf e' = encNIs its
+    | .error _ => ∃ e', exec1 goFuns fuel (.loop ofeLoopBody) ⟨e, pj.tape⟩ = .ret ⟨e', pj.tape⟩ [.bool true]
+    | .panic => exec1 goFuns fuel (.loop ofeLoopBody) ⟨e, pj.tape⟩ = .panic
+    | .diverge => False := by
+  intro n
+  induction n with
+  | zero => intro tmp cnt acc e fuel mf h; omega
+  | succ n ih =>
+    intro tmp cnt acc e fuel mf hm h0 hmf hf hl inv hk hcnt hlog
+    obtain ⟨m, rfl⟩ : ∃ m, mf = m + 1 := ⟨mf - 1, by omega⟩
+    obtain ⟨F, rfl⟩ : ∃ F, fuel = F + 2 := ⟨fuel - 2, by omega⟩
+    have hA := objHeadA_run pj e tmp F (objHeadB ++ (objFilter :: (objValue ++ ofeTail))) inv hl (by omega)
+    rw [View.forEach, exec1, ofeLoopBody_eq]
+    cases hr : tmp.advance pj with
+    | panic => rw [hr] at hA; simp only [] at hA; rw [hA]; simp
+    | error _ => rw [hr] at hA; exact hA.elim
+    | diverge => rw [hr] at hA; exact hA.elim
+    | ok r =>
+      obtain ⟨tmp1, typ⟩ := r
+      rw [hr] at hA
+      simp only [] at hA
+      rw [hA]
+      simp only [Res.bind_ok]
+      have inv1 : ItInv pj "tmp" tmp1 ((advEnv e "tmp" tmp1 pj).set "typ" (.u8 typ)) :=
+        (inv.adv tmp1 (by decide) (by decide) (by decide)).set _ _ (by decide)
+      have hfr1 : ∀ k, k ∉ "typ" :: itKeys "tmp" → ((advEnv e "tmp" tmp1 pj).set "typ" (.u8 typ)).get k = e.get k := by
+        intro k hk'
+        simp only [List.mem_cons, not_or] at hk'
+        rw [Env.get_set_ne _ _ (Ne.symm hk'.1), get_advEnv _ _ _ _ _ (by simpa [itKeys] using hk'.2)]
+      generalize (advEnv e "tmp" tmp1 pj).set "typ" (.u8 typ) = E1 at inv1 hfr1 ⊢
+      by_cases hc : typ ≠ typeString ∨ tmp1.off + 1 ≥ tmp1.lim
+      · have hc' : (typ != typeString) = true ∨ tmp1.off + 1 ≥ tmp1.lim := by
+          rcases hc with h | h
+          · exact Or.inl (by simpa using h)
+          · exact Or.inr h
+        rw [if_pos hc, if_pos hc']
+        by_cases hn : typ = typeNone
+        · subst hn
+          simp only [beq_self_eq_true, if_true, Bool.not_true]
+          exact ⟨E1, rfl, by rw [logOf_congr (hfr1 _ (by decide)), hlog]⟩
+        · have hn' : (typ == typeNone) = false := by simpa using hn
+          simp only [hn', Bool.false_eq_true, if_false, Bool.not_false]
+          exact ⟨E1, rfl⟩
+      · have hc' : ¬ ((typ != typeString) = true ∨ tmp1.off + 1 ≥ tmp1.lim) := by
+          intro h
+          apply hc
+          rcases h with h | h
+          · exact Or.inl (by simpa using h)
+          · exact Or.inr h
+        rw [if_neg hc, if_neg hc']
+        have hts : typ = typeString := by
+          apply Classical.byContradiction; intro h; exact hc (Or.inl h)
+        have htn : typ ≠ typeNone := by rw [hts]; decide
+        have h2 : tmp1.off + 1 < tmp1.lim := by omega
+        obtain ⟨f1, f2, f3, f4, f5, _⟩ := advance_facts pj tmp h0 tmp1 typ hr htn
+        obtain ⟨w, hw, hB⟩ := objHeadB_run pj E1 tmp1 F (objFilter :: (objValue ++ ofeTail)) hb inv1 (by omega) h2
+        simp only [rd, hw, Res.bind_ok]
+        cases hsb : stringByteAt pj tmp1.cur w with
+        | panic => have := stringByteAt_safe pj tmp1.cur w; rw [hsb] at this; cases this
+        | diverge => have := stringByteAt_safe pj tmp1.cur w; rw [hsb] at this; cases this
+        | error _ =>
+          rw [hsb] at hB
+          obtain ⟨e', hx⟩ := hB
+          rw [hx]
+          exact ⟨e', rfl⟩
+        | ok name =>
+          rw [hsb] at hB
+          obtain ⟨e2, hx, inv2, hname, hfr2⟩ := hB
+          rw [hx]
+          simp only [Res.bind_ok]
+          have hk2 : e2.get "onlyKeys" = some (.keys ks) := by
+            rw [hfr2 _ (by decide), hfr1 _ (by decide), hk]
+          have hcnt2 : e2.get "n" = some (.int cnt) := by
+            rw [hfr2 _ (by decide), hfr1 _ (by decide), hcnt]
+          have hlog2 : logOf e2 = encNIs acc := by
+            rw [logOf_congr (hfr2 _ (by decide)), logOf_congr (hfr1 _ (by decide)), hlog]
+          have hFl := objFilter_run pj e2 tmp1 name ks F (objValue ++ ofeTail) inv2 hname hk2 (by omega) (by omega)
+          by_cases hcond : ks.length > 0 ∧ (!ks.contains name) = true
+          · rw [if_pos hcond] at hFl ⊢
+            cases hr2 : tmp1.advance pj with
+            | panic => rw [hr2] at hFl; simp only [] at hFl; rw [hFl]; simp
+            | error _ => rw [hr2] at hFl; exact hFl.elim
+            | diverge => rw [hr2] at hFl; exact hFl.elim
+            | ok r2 =>
+              obtain ⟨tmp2, t⟩ := r2
+              rw [hr2] at hFl
+              simp only [] at hFl
+              rw [hFl]
+              simp only [Res.bind_ok]
+              have inv3 : ItInv pj "tmp" tmp2 ((advEnv (e2.set "ok" (.bool false)) "tmp" tmp2 pj).set "t" (.u8 t)) :=
+                ((inv2.set _ _ (by decide)).adv tmp2 (by decide) (by decide) (by decide)).set _ _ (by decide)
+              have hfr3 : ∀ k, k ∉ "t" :: "ok" :: itKeys "tmp" →
+                  ((advEnv (e2.set "ok" (.bool false)) "tmp" tmp2 pj).set "t" (.u8 t)).get k = e2.get k := by
+                intro k hk'
+                simp only [List.mem_cons, not_or] at hk'
+                rw [Env.get_set_ne _ _ (Ne.symm hk'.1), get_advEnv _ _ _ _ _ (by simpa [itKeys] using hk'.2.2),
+                  Env.get_set_ne _ _ (Ne.symm hk'.2.1)]
+              generalize (advEnv (e2.set "ok" (.bool false)) "tmp" tmp2 pj).set "t" (.u8 t) = E3 at inv3 hfr3 ⊢
+              by_cases ht : t = typeNone
+              · subst ht
+                simp only [if_true, beq_self_eq_true]
+                exact ⟨E3, rfl, by rw [logOf_congr (hfr3 _ (by decide)), hlog2]⟩
+              · have ht' : (t == typeNone) = false := by simpa using ht
+                obtain ⟨q1, q2, q3, q4, q5, _⟩ := advance_facts pj tmp1 f4 tmp2 t hr2 ht
+                simp only [ht, ht', if_false, Bool.false_eq_true]
+                exact ih tmp2 cnt acc E3 (F + 1) m (by unfold pos at hm ⊢; omega) q4 (by omega) (by omega)
+                  (by omega) inv3 (by rw [hfr3 _ (by decide), hk2]) (by rw [hfr3 _ (by decide), hcnt2])
+                  (by rw [logOf_congr (hfr3 _ (by decide)), hlog2])
+          · rw [if_neg hcond] at hFl ⊢
+            obtain ⟨e3, hx3, hfr3⟩ := hFl
+            rw [hx3]
+            have inv3 : ItInv pj "tmp" tmp1 e3 := inv2.congr (fun k hk' => hfr3 k (by revert k; decide))
+            have hV := objValue_run pj e3 tmp1 F ofeTail inv3 (by omega) (by omega)
+            cases hr2 : tmp1.advance pj with
+            | panic => rw [hr2] at hV; simp only [] at hV; rw [hV]; simp
+            | error _ => rw [hr2] at hV; exact hV.elim
+            | diverge => rw [hr2] at hV; exact hV.elim
+            | ok r2 =>
+              obtain ⟨tmp2, t⟩ := r2
+              rw [hr2] at hV
+              simp only [] at hV
+              rw [hV]
+              simp only [Res.bind_ok]
+              have inv4 : ItInv pj "tmp" tmp2 ((advEnv e3 "tmp" tmp2 pj).set "t" (.u8 t)) :=
+                (inv3.adv tmp2 (by decide) (by decide) (by decide)).set _ _ (by decide)
+              have hfr4 : ∀ k, k ∉ "t" :: "ok" :: itKeys "tmp" →
+                  ((advEnv e3 "tmp" tmp2 pj).set "t" (.u8 t)).get k = e2.get k := by
+                intro k hk'
+                simp only [List.mem_cons, not_or] at hk'
+                rw [Env.get_set_ne _ _ (Ne.symm hk'.1), get_advEnv _ _ _ _ _ (by simpa [itKeys] using hk'.2.2),
+                  hfr3 _ hk'.2.1]
+              generalize (advEnv e3 "tmp" tmp2 pj).set "t" (.u8 t) = E4 at inv4 hfr4 ⊢
+              by_cases ht : t = typeNone
+              · subst ht
+                simp only [if_true, beq_self_eq_true]
+                exact ⟨E4, rfl, by rw [logOf_congr (hfr4 _ (by decide)), hlog2]⟩
+              · have ht' : (t == typeNone) = false := by simpa using ht
+                obtain ⟨q1, q2, q3, q4, q5, _⟩ := advance_facts pj tmp1 f4 tmp2 t hr2 ht
+                simp only [ht, ht', if_false, Bool.false_eq_true]
+                rw [ofeTail_run E4 pj.tape (F + 1) tmp2 name ks cnt inv4.it (by rw [hfr4 _ (by decide), hname])
+                  (by rw [hfr4 _ (by decide), hk2]) (by rw [hfr4 _ (by decide), hcnt2])]
+                have hlog4 : logOf E4 = encNIs acc := by rw [logOf_congr (hfr4 _ (by decide)), hlog2]
+                by_cases hce : cnt + 1 = ks.length
+                · have hce' : (cnt + 1 == ks.length) = true := by simpa using hce
+                  simp only [hce', if_true]
+                  rw [if_pos hce]
+                  refine ⟨_, rfl, ?_⟩
+                  rw [logOf_congr (Env.get_set_ne _ _ (by decide)), logOf_set, hlog4, encNIs_push]
+                · have hce' : (cnt + 1 == ks.length) = false := by simpa using hce
+                  simp only [hce', if_false, Bool.false_eq_true]
+                  rw [if_neg hce]
+                  exact ih tmp2 (cnt + 1) (acc.push (name, tmp2)) _ (F + 1) m (by unfold pos at hm ⊢; omega) q4
+                    (by omega) (by omega) (by omega)
+                    ((inv4.set _ _ (by decide)).set _ _ (by decide))
+                    (by rw [Env.get_set_ne _ _ (by decide), Env.get_set_ne _ _ (by decide), hfr4 _ (by decide), hk2])
+                    (by rw [Env.get_set_self])
+                    (by rw [logOf_congr (Env.get_set_ne _ _ (by decide)), logOf_set, hlog4, encNIs_push])
+
+/-- the store after `tmp := o.tape.Iter(); tmp.off = o.off` -/
+def objInitEnv (e0 : Env) (v : View) : Env :=
+  (((((e0.set "tmp.off" (.int 0)).set "tmp.addNext" (.int 0)).set "tmp.cur" (.u64 0)).set "tmp.t" (.u8 0)).set "tmp.lim"
+    (.int v.lim)).set "tmp.off" (.int v.off)
+
+theorem objInitEnv_inv (pj : PJ) (v : View) (e0 : Env) (h0 : RecvIn pj "o" v e0) :
+    ItInv pj "tmp" v.iter (objInitEnv e0 v) := by
+  obtain ⟨a1, a2, hS, hM⟩ := h0
+  refine ⟨?_, ?_, ?_⟩
+  · apply iterAt_of_gets <;> simp [objInitEnv, View.iter, tagEnd]
+  · simp [objInitEnv, hS]
+  · simp [objInitEnv, hM]
+
+theorem objInitEnv_get (v : View) (e0 : Env) (k : String) (hk : k ∉ fieldsOf "tmp") :
+    (objInitEnv e0 v).get k = e0.get k := by
+  simp only [fieldsOf, List.mem_cons, List.not_mem_nil, or_false, not_or, String.reduceAppend] at hk
+  obtain ⟨k1, k2, k3, k4, k5⟩ := hk
+  simp only [objInitEnv]
+  rw [Env.get_set_ne _ _ (Ne.symm k1), Env.get_set_ne _ _ (Ne.symm k5), Env.get_set_ne _ _ (Ne.symm k4),
+    Env.get_set_ne _ _ (Ne.symm k3), Env.get_set_ne _ _ (Ne.symm k2), Env.get_set_ne _ _ (Ne.symm k1)]
+
+/-- `Object.ForEach` IS `View.forEach`: the callbacks made are the model's, in order (name length and iterator); `nil` /
+    error / panic as the model says; the tape is untouched -/
+theorem objForEach_sim (pj : PJ) (hb : BufOK pj) (v : View) (hl : v.lim ≤ pj.tape.size) (ks : List Bytes) (e0 : Env)
+    (h0 : RecvIn pj "o" v e0) (hk : e0.get "onlyKeys" = some (.keys ks)) (hlog : logOf e0 = []) (fuel mf : Nat)
+    (hmf : v.lim - v.off + 1 ≤ mf) (hf : 2 * v.lim + 7 ≤ fuel) :
+    SimOFE pj (runFun goFuns goObject_ForEach fuel ⟨e0, pj.tape⟩) (View.forEach pj ks v.iter 0 #[] mf) := by
+  have hsplit : goObject_ForEach.body = goObject_ForEach.body.take 7 ++ [.loop ofeLoopBody] := rfl
+  have hinit : exec goFuns fuel (goObject_ForEach.body.take 7) ⟨e0, pj.tape⟩ =
+      .normal ⟨(objInitEnv e0 v).set "n" (.int 0), pj.tape⟩ := by
+    obtain ⟨a1, a2, hS, hM⟩ := h0
+    simp only [String.reduceAppend] at a1 a2
+    simp [goObject_ForEach, a1, a2, objInitEnv]
+  have hloop := objForEach_loop pj hb ks (v.lim - v.off + 1) v.iter 0 #[] ((objInitEnv e0 v).set "n" (.int 0)) fuel mf
+    (by simp [pos, View.iter]) (by simp [View.iter]) hmf (by simp [View.iter]; omega) hl
+    ((objInitEnv_inv pj v e0 h0).set _ _ (by decide))
+    (by rw [Env.get_set_ne _ _ (by decide), objInitEnv_get _ _ _ (by decide), hk])
+    (by rw [Env.get_set_self]; rfl)
+    (by rw [logOf_congr (Env.get_set_ne _ _ (by decide)), logOf_congr (objInitEnv_get _ _ _ (by decide)), hlog]; rfl)
+  unfold runFun
+  rw [hsplit, exec_append, hinit]
+  simp only []
+  rw [exec]
+  revert hloop
+  generalize exec1 goFuns fuel (.loop ofeLoopBody) _ = out
+  cases View.forEach pj ks v.iter 0 #[] mf with
+  | ok its =>
+    rintro ⟨e', rfl, hlg⟩
+    exact ⟨_, rfl, rfl, hlg⟩
+  | error _ =>
+    rintro ⟨e', rfl⟩
+    exact ⟨_, rfl, rfl⟩
+  | panic => rintro rfl; rfl
+  | diverge => exact fun h => h.elim
+
+/-! ## 5. `Object.DeleteElems` -/
+
+/-- the run predicate "every deleted member ends inside the view" (see `arrDelInView`): follows the model's run -/
+def objDelInView (pj : PJ) (pred : Nat → Bytes → Bool) (ks : List Bytes) (tmp : Iter) (n : Nat) : (fuel : Nat) → Bool
+  | 0 => true
+  | fuel + 1 =>
+    match tmp.advance pj with
+    | .ok (tmp1, typ) =>
+      if typ != typeString ∨ tmp1.off + 1 >= tmp1.lim then true else
+      match rd pj.tape tmp1.off with
+      | .ok length =>
+        match stringByteAt pj tmp1.cur length with
+        | .ok name =>
+          if ks.length > 0 ∧ !ks.contains name then
+            match tmp1.advance pj with
+            | .ok (tmp2, t) => if t == typeNone then true else objDelInView pj pred ks tmp2 n fuel
+            | _ => true
+          else
+            match tmp1.advance pj with
+            | .ok (tmp2, t) =>
+              if t == typeNone then true
+              else if pred n name then
+                decide ((tmp2.off : Int) + tmp2.addNext ≤ tmp2.lim) &&
+                  (match View.fillNops pj.tape (tmp1.off - 1) ((tmp2.off : Int) + tmp2.addNext).toNat with
+                   | .ok tp => objDelInView { pj with tape := tp } pred ks tmp2 (n + 1) fuel
+                   | _ => true)
+              else objDelInView pj pred ks tmp2 (n + 1) fuel
+            | _ => true
+        | _ => true
+      | _ => true
+    | _ => true
+
+def odeLoopBody : List Stmt := firstLoop goObject_DeleteElems.body
+
+def objFillStmts : List Stmt :=
+  .assign "end" (.bin .add (.v "tmp.off") (.v "tmp.addNext")) :: fillTail "i" "tmp"
+
+def odeTail : Stmt :=
+  .ite (.v "fn==nil") objFillStmts [.cb "#fn" "fn" cbLogsTmp, .ite (.v "#fn") objFillStmts []]
+
+theorem odeLoopBody_eq : odeLoopBody = objHeadA ++ (.assign "startO" (.bin .sub (.v "tmp.off") (.int 1)) ::
+    (objHeadB ++ (objFilter :: (objValue ++ [odeTail])))) := rfl
+
+theorem objFill_run (e : Env) (tape : Array UInt64) (fuel : Nat) (tmp2 : Iter) (lo : Nat)
+    (hI : iterAt e "tmp" = some tmp2) (hs : e.get "startO" = some (.int lo)) (hlo : lo ≤ pos tmp2)
+    (h0 : 0 ≤ tmp2.addNext) (hf : min (pos tmp2) tmp2.lim - lo + 3 ≤ fuel) :
+    match Iter.nopFillV tmp2.lim tape lo (pos tmp2) with
+    | .ok t' => ∃ e', exec goFuns fuel objFillStmts ⟨e, tape⟩ = .normal ⟨e', t'⟩ ∧
+        ∀ k, k ∉ ["end", "skip", "i"] → e'.get k = e.get k
+    | .panic => exec goFuns fuel objFillStmts ⟨e, tape⟩ = .panic
+    | _ => False := by
+  obtain ⟨g1, g2, g3, g4, g5⟩ := iterAt_get_tmp _ _ hI
+  have he : exec1 goFuns fuel (.assign "end" (.bin .add (.v "tmp.off") (.v "tmp.addNext"))) ⟨e, tape⟩ =
+      .normal ⟨e.set "end" (.int ((pos tmp2 : Nat) : Int)), tape⟩ := by
+    have : (tmp2.off : Int) + tmp2.addNext = ((pos tmp2 : Nat) : Int) := by unfold pos; omega
+    simp [g1, g2, this]
+  have ht := fillTail_run "i" "tmp" tmp2.lim lo (pos tmp2) (by decide) (by decide) (by decide) (by decide) tape
+    (e.set "end" (.int ((pos tmp2 : Nat) : Int))) fuel hlo hf (by simp [hs]) (by simp) (by simp [g5])
+  rw [objFillStmts, exec, he]
+  simp only []
+  revert ht
+  cases Iter.nopFillV tmp2.lim tape lo (pos tmp2) with
+  | ok t' =>
+    rintro ⟨e', hx, hfr⟩
+    refine ⟨e', hx, ?_⟩
+    intro k hk
+    simp only [List.mem_cons, List.not_mem_nil, or_false, not_or] at hk
+    obtain ⟨k1, k2, k3⟩ := hk
+    rw [hfr k k3 k2, Env.get_set_ne _ _ (Ne.symm k1)]
+  | panic => exact fun h => h
+  | error _ => exact fun h => h
+  | diverge => exact fun h => h
+
+/-- what the store says about the callback: with `fn == nil` nothing is logged; otherwise the log holds the callbacks
+    made so far and `fn.results` the answers not yet consumed -/
+def CbInv (nil : Bool) (N : Nat) (q : Nat → Bool) (L0 : List Int) (acc : Array (Bytes × Iter)) (e : Env) : Prop :=
+  if nil = true then logOf e = L0
+  else logOf e = encNIs acc ∧ e.get "fn.results" = some (.bools ((answers N q).drop acc.size))
+
+theorem CbInv.congr {nil : Bool} {N : Nat} {q : Nat → Bool} {L0 : List Int} {acc : Array (Bytes × Iter)} {e e' : Env}
+    (h : CbInv nil N q L0 acc e) (h1 : e'.get "fn.log" = e.get "fn.log")
+    (h2 : e'.get "fn.results" = e.get "fn.results") : CbInv nil N q L0 acc e' := by
+  unfold CbInv at h ⊢
+  cases nil with
+  | true => simp only [if_true] at h ⊢; rw [logOf_congr h1]; exact h
+  | false =>
+    simp only [Bool.false_eq_true, if_false] at h ⊢
+    rw [logOf_congr h1, h2]; exact h
+
 end SJ.GoDelete
